@@ -14,12 +14,19 @@
       pipeline the harness observes (wal-sync, own proposal, own part, own prevote, own precommit,
       block batch, #ENDHEIGHT, app-hash batch, [trie flush — flush-every-block mode only], head
       batch, consensus-state batch); [txs h]: the block of height [h] carries transactions.
+    - the durable WAL of an image is a record list with [RRot] marks where the head was rotated
+      (autofile.Group.RotateFile); [split_files] cuts it into the files of the group, [wal_onstart]
+      is BaseWAL.OnStart (an empty head gets #ENDHEIGHT 0), [search h files] is
+      BaseWAL.SearchForEndHeight (newest file first, lastHeightFound kept across files, the
+      "0 < lastHeightFound < height" shortcut), [flat_search] the search of a log that was never
+      rotated; [sorted_markers l]: the non-zero #ENDHEIGHT markers of [l] increase (no height was
+      run twice); [norm] erases the rotation marks and the #ENDHEIGHT 0 markers.
     - [recover sc tl im]: what NewBlockChain's repair, Store.Load / genesis fallback,
       NewConsensusState and catchupReplay do on the image, and the signature requests up to the
       next commit; [stores_agree]: head height = consensus-state height; [no_conflict]: no
       signature request conflicts with a published message of the same (height, round, type). *)
 From Coq Require Import List Arith Bool.
-From Kardia Require Import C05.Model C05.ProofsWal C05.ProofsRecover.
+From Kardia Require Import C05.Model C05.ProofsWal C05.ProofsRecover C05.ProofsSearch C05.ProofsRotate C05.ProofsNoConflict.
 Import ListNotations.
 
 (** the durable WAL is a prefix of the logical log at every crash point ... *)
@@ -83,20 +90,51 @@ Theorem C05_consistent_keep_recent :
 Proof. exact keeprecent_any. Qed.
 Print Assumptions C05_consistent_keep_recent.
 
-(** no conflicting signature: blocks without transactions, heights 1..5, every crash point before
-    the head batch (bounded statement; the unbounded one is in Open.v) *)
-Theorem C05_no_conflict_empty_blocks_partial :
-  forallb (fun n => forallb (fun i => no_conflict (recover sc_fixed TSynced (crash_img tx_none true n i))) (seq 0 10)) (seq 0 5) = true.
-Proof. exact no_conflict_empty_blocks_small. Qed.
-Print Assumptions C05_no_conflict_empty_blocks_partial.
+(** NO CONFLICT, every image (any database state, any WAL, rotated anywhere, any tail): when the
+    application state is the regular one, the pool is empty after the restart and no proposal of the restart height in the durable WAL
+    carries transactions (so the block re-created from the empty pool equals it), the restarted
+    node signs nothing that conflicts with what it had published *)
+Theorem C05_no_conflict_general :
+  forall sc tl im,
+    sc_appfixed sc = true -> sc_newtx sc = false -> memb (cs_height im) (i_badapps im) = false ->
+    (forall x t, In (RProp (S (cs_height im)) x t) (i_wal im) -> t = false) ->
+    no_conflict (recover sc tl im) = true.
+Proof. exact no_conflict_general. Qed.
+Print Assumptions C05_no_conflict_general.
 
-(** no conflicting signature before the own proposal is durable, blocks with transactions
-    (bounded statement) *)
-Theorem C05_no_conflict_before_proposal_partial :
-  forallb (fun n => no_conflict (recover sc_fixed TSynced (crash_img tx_all true n 0)) &&
-                    no_conflict (recover sc_fixed TSynced (crash_img tx_all true n 1))) (seq 0 5) = true.
-Proof. exact no_conflict_before_proposal_small. Qed.
-Print Assumptions C05_no_conflict_before_proposal_partial.
+(** flush-every-block mode, ANY number of finished heights, every crash point before the head batch,
+    every tail: no conflicting signature when the block of the crash height carries no transactions *)
+Theorem C05_no_conflict_empty_blocks :
+  forall txs sc tl n i, i <= 9 -> txs (S n) = false -> sc_appfixed sc = true -> sc_newtx sc = false ->
+    no_conflict (recover sc tl (crash_img txs true n i)) = true.
+Proof. exact no_conflict_empty_blocks. Qed.
+Print Assumptions C05_no_conflict_empty_blocks.
+
+(** ... and whatever the blocks carry: no conflicting signature before the own proposal is durable *)
+Theorem C05_no_conflict_before_proposal :
+  forall txs sc tl n i, i <= 1 -> sc_appfixed sc = true -> sc_newtx sc = false ->
+    no_conflict (recover sc tl (crash_img txs true n i)) = true.
+Proof. exact no_conflict_before_proposal. Qed.
+Print Assumptions C05_no_conflict_before_proposal.
+
+(** "continues like a twin that never crashed", on the signature requests: under the same
+    hypotheses the restarted node asks for exactly one proposal, one prevote and one precommit
+    for a block in round 1 of the height the twin is in *)
+Theorem C05_twin_signatures :
+  forall txs sc tl n i, i <= 9 -> txs (S n) = false -> sc_appfixed sc = true -> sc_newtx sc = false ->
+    map sig_shape (r_sigs (recover sc tl (crash_img txs true n i))) =
+    [(true, 0, S n, 1, false); (false, 1, S n, 1, false); (false, 2, S n, 1, false)].
+Proof. exact twin_signatures. Qed.
+Print Assumptions C05_twin_signatures.
+
+(** REFUTED at every height: the three crash points after the #ENDHEIGHT fsync and before the head
+    batch conflict as soon as the block of that height carries transactions (no block-replay
+    handshake: the height is run again from an empty pool) *)
+Theorem C05_no_conflict_after_endheight_every_height_refuted :
+  forall txs sc tl n i, 7 <= i <= 9 -> txs (S n) = true ->
+    no_conflict (recover sc tl (crash_img txs true n i)) = false.
+Proof. exact conflict_after_endheight. Qed.
+Print Assumptions C05_no_conflict_after_endheight_every_height_refuted.
 
 (** witness: crash index 7 of height 3 (after the #ENDHEIGHT fsync): no replay, the height is run
     again, the new block conflicts with the published one and replaces the stored one *)
@@ -142,6 +180,81 @@ Theorem C05_second_crash :
     recover sc tl (apply_db WHeadPtr im) = recover sc tl im.
 Proof. exact second_crash_headptr. Qed.
 Print Assumptions C05_second_crash.
+
+(** WAL ROTATION.  On a log whose markers increase, the search for a height >= 1 over the files
+    of the group - wherever the head was rotated, however many #ENDHEIGHT 0 markers OnStart added -
+    finds exactly what the search of the unrotated log finds, and reads on through all younger files *)
+Theorem C05_search_rotation_invariant :
+  forall h files, 1 <= h -> sorted_markers (concat files) ->
+    search h files = flat_search h (concat files).
+Proof. exact search_sorted. Qed.
+Print Assumptions C05_search_rotation_invariant.
+
+Theorem C05_search_unrotated : forall h f, search h [f] = flat_search h f.
+Proof. exact search_single. Qed.
+Print Assumptions C05_search_unrotated.
+
+(** a restart at a height >= 2: two durable logs with the same records (rotated at other places
+    or not at all, other #ENDHEIGHT 0 markers) give the same recovery - same replay class, same
+    signature requests, same conflicts *)
+Theorem C05_recover_rotation_invariant :
+  forall sc tl im w,
+    1 <= cs_height im ->
+    sorted_markers (filter notrot (i_wal im)) -> sorted_markers (filter notrot w) ->
+    norm w = norm (i_wal im) ->
+    recover sc tl (set_wal im w) = recover sc tl im.
+Proof. exact recover_rotation_invariant. Qed.
+Print Assumptions C05_recover_rotation_invariant.
+
+(** in particular on the crash images of the commit pipeline after n >= 1 heights: every theorem
+    above about [crash_img] holds for every rotation of its WAL *)
+Theorem C05_pipeline_rotation_invariant :
+  forall txs sc tl n i w, 1 <= n -> i <= 9 ->
+    sorted_markers (filter notrot w) -> norm w = norm (i_wal (crash_img txs true n i)) ->
+    recover sc tl (set_wal (crash_img txs true n i) w) = recover sc tl (crash_img txs true n i).
+Proof. exact crash_img_rotation_invariant. Qed.
+Print Assumptions C05_pipeline_rotation_invariant.
+
+(** why the shortcut must test [lastHeightFound > 0]: after a rotation and a crash the head holds
+    only OnStart's #ENDHEIGHT 0; the search finds every marker >= 1 of the rotated file behind it,
+    the variant with [lastHeightFound >= 0] ([search_ge0]) finds none *)
+Theorem C05_search_behind_fresh_head :
+  forall f h, 1 <= h -> has_end h f = true ->
+    search h [f; [REnd 0]] = Some (after_end h f ++ [REnd 0]) /\
+    (forall older, search_ge0 h (older ++ [[REnd 0]]) = None).
+Proof. intros f h Hh Hf. split; [exact (search_finds_behind_fresh_head f h Hh Hf)|intro older; exact (search_ge0_misses older h Hh)]. Qed.
+Print Assumptions C05_search_behind_fresh_head.
+
+(** REFUTED for the initial height: own proposal of height 1 durable, head rotated away, crash:
+    OnStart's fresh #ENDHEIGHT 0 is found first, nothing of height 1 is replayed (the unrotated
+    image replays the proposal), the node signs a second, different proposal for height 1 round 1 *)
+Theorem C05_rotation_initial_height_refuted :
+  let im := crash_img tx_all true 0 2 in
+  let o' := recover sc_fixed TSynced (set_wal im (i_wal im ++ [RRot])) in
+  wv_logged (view_of 1 0 (i_wal im)) = Some true /\
+  wv_logged (view_of 1 0 (i_wal im ++ [RRot])) = None /\
+  r_replay o' = RcReplayed /\ no_conflict o' = false /\
+  match r_sigs o' with s :: _ => s_prop s = true /\ s_rel s = RelConf | [] => False end.
+Proof. exact witness_rotation_initial_height. Qed.
+Print Assumptions C05_rotation_initial_height_refuted.
+
+(** the closed-form image [img_after] and the fold of the observed log (boot writes, then the
+    pipeline of every height) agree on the head pointer *)
+Theorem C05_image_head_of_chain_log :
+  forall txs archive n,
+    i_head (fold_left (fun im e => apply_entry e im)
+              (flat_map (fun h => pipeline txs archive h) (seq 1 n)) (img_after txs archive 0))
+    = i_head (img_after txs archive n).
+Proof. exact image_head_of_chain_log. Qed.
+Print Assumptions C05_image_head_of_chain_log.
+
+(** the hypotheses of the rotation theorems are satisfiable: a rotation right after the own
+    prevote of height 3 changes nothing *)
+Theorem C05_example_rotation :
+  let im := crash_img tx_all true 2 4 in
+  recover sc_fixed TSynced (set_wal im (i_wal im ++ [RRot])) = recover sc_fixed TSynced im.
+Proof. exact witness_rotation_later_height. Qed.
+Print Assumptions C05_example_rotation.
 
 (** the hypotheses are satisfiable / the definitions compute: a concrete healthy recovery *)
 Theorem C05_example_replay :
